@@ -281,8 +281,7 @@ def r_element(ctx, func_refs: typing.Iterable[str], rule: str = 'R-ELEMENT') -> 
         fn = prog.func(ref)
         sites = [c for c in core.calls_in(fn.node) if isinstance(c.func, ast.Attribute) and c.func.attr == 'dissect']
         if not sites:
-            ctx.fail(rule, fn, 'origin extraction through <Element>.dissect(...) not found (idiom not recognised)', fn.node, key='dissect-missing')
-            continue
+            continue  # no origin extraction here (the function's own rule decides what it may return)
         uses_origin = any(isinstance(x, ast.Attribute) and x.attr == 'origin' for x in core.walk_local(fn.node))
         for call in sites:
             recv = prog.resolve_expr(fn, call.func.value)
